@@ -93,6 +93,11 @@ theorem closeWith_flow :
          "}",
          "return ret"] := rfl
 
+/-- `Close` is `closeWith(nil)` and nothing before it: the stream is closed before the lock of the handler
+    table is asked for, so a dispatch that waits for the peer inside the critical section is ended by it -/
+theorem close_flow :
+    Gen.Endpoint.closeFlow = ["call e.closeWith", "return e.closeWith(nil)"] := rfl
+
 /-- `process`: read one message, dispatch it, repeat; a read error shuts the endpoint down -/
 theorem process_flow :
     Gen.Endpoint.processFlow =
